@@ -8,6 +8,7 @@ import (
 	"bytes"
 	"context"
 	"encoding/json"
+	"errors"
 	"fmt"
 	"io"
 	"log/slog"
@@ -19,6 +20,7 @@ import (
 	"sort"
 	"strconv"
 	"strings"
+	"sync"
 	"time"
 
 	"rivaas.dev/app"
@@ -222,6 +224,8 @@ func (f fmtT) build() riverrors.Formatter {
 		sr = func(error) int { return s }
 	}
 	switch f.Kind {
+	case "broken":
+		return brokenFormatter{}
 	case "rfc":
 		r := &riverrors.RFC9457{BaseURL: f.BaseURL, DisableErrorID: f.DisableID, StatusResolver: sr}
 		if f.TypeRes != nil {
@@ -236,6 +240,23 @@ func (f fmtT) build() riverrors.Formatter {
 	}
 }
 
+// brokenFormatter: a user-written Formatter (the interface is public) whose Body never encodes
+type brokenFormatter struct{}
+
+func (brokenFormatter) Format(_ *http.Request, err error) riverrors.Response {
+	status := http.StatusInternalServerError
+	var t riverrors.ErrorType
+	if errors.As(err, &t) {
+		status = t.HTTPStatus()
+	}
+	return riverrors.Response{Status: status, ContentType: "application/x-trace+json",
+		Body: map[string]any{"error": err.Error(), "trace": make(chan int)}}
+}
+
+func isBroken(opts []optT) bool {
+	return len(opts) == 1 && opts[0].F != nil && opts[0].F.Kind == "broken"
+}
+
 // the state the pre-registered handlers read, one slot per request in flight (header X-Slot)
 type slotT struct {
 	c       *acaseT
@@ -247,12 +268,55 @@ type slotT struct {
 var slots [4]slotT
 var acceptAnswers []string
 
-func slotOf(r *http.Request) *slotT {
+func slotIndex(r *http.Request) int {
 	i, _ := strconv.Atoi(r.Header.Get("X-Slot"))
 	if i < 0 || i >= len(slots) {
 		i = 0
 	}
-	return &slots[i]
+	return i
+}
+
+func slotOf(r *http.Request) *slotT { return &slots[slotIndex(r)] }
+
+// ---- the "handler error" record fail logs (slog default handler), attributed to the slot that is failing
+type logRec struct {
+	err    string
+	status int
+}
+
+var (
+	capMu   sync.Mutex
+	capLogs [4][]logRec
+	curSlot int
+)
+
+type capHandler struct{}
+
+func (capHandler) Enabled(context.Context, slog.Level) bool { return true }
+func (capHandler) WithAttrs([]slog.Attr) slog.Handler       { return capHandler{} }
+func (capHandler) WithGroup(string) slog.Handler            { return capHandler{} }
+func (capHandler) Handle(_ context.Context, r slog.Record) error {
+	if r.Message != "handler error" {
+		return nil
+	}
+	rec := logRec{status: -1}
+	r.Attrs(func(a slog.Attr) bool {
+		switch a.Key {
+		case "error":
+			if e, ok := a.Value.Any().(error); ok {
+				rec.err = e.Error()
+			} else {
+				rec.err = a.Value.String()
+			}
+		case "status":
+			rec.status = int(a.Value.Int64())
+		}
+		return true
+	})
+	capMu.Lock()
+	capLogs[curSlot] = append(capLogs[curSlot], rec)
+	capMu.Unlock()
+	return nil
 }
 
 var helperCalls = []func(c *app.Context, err error){
@@ -295,6 +359,9 @@ func handlerAt(i int) app.HandlerFunc {
 				c.Request = c.Request.WithContext(ctx)
 				defer cancel()
 			}
+			capMu.Lock()
+			curSlot = slotIndex(c.Request)
+			capMu.Unlock()
 			switch k.Call.Kind {
 			case "fail":
 				c.Fail(sl.err)
@@ -440,6 +507,7 @@ type obsT struct {
 	aborted bool
 	entered []int
 	panic   bool
+	logs    []logRec
 }
 
 // nb picks how many of the handlers before the main one are "before" handlers: derived from the case
@@ -508,6 +576,9 @@ func answersFor(b *builtApp, accept *string) []string {
 
 func arm(slot int, k *acaseT) {
 	slots[slot] = slotT{c: k}
+	capMu.Lock()
+	capLogs[slot] = nil
+	capMu.Unlock()
 	if k.Call.Err != nil {
 		slots[slot].err = k.Call.Err.build()
 	}
@@ -517,6 +588,9 @@ func observe(slot, st int, ct string, body []byte, panicked bool) obsT {
 	sl := &slots[slot]
 	o := obsT{status: st, ctype: ct, aborted: sl.aborted, entered: append([]int(nil), sl.entered...), panic: panicked}
 	sl.c = nil
+	capMu.Lock()
+	o.logs = append([]logRec(nil), capLogs[slot]...)
+	capMu.Unlock()
 	dec := json.NewDecoder(bytes.NewReader(body))
 	dec.UseNumber()
 	for {
@@ -648,7 +722,8 @@ func encFmt(l *hx.Line, f fmtT) {
 	}
 }
 
-func node(l *hx.Line, st *int, code *string, det any, hasDet bool, msg func(), kids func() int) {
+// detMode: 0 no Details method, 1 details (canonical JSON in det), 2 details that cannot be encoded
+func node(l *hx.Line, st *int, code *string, det any, detMode int, msg func(), kids func() int) {
 	l.Tok("N")
 	if st != nil {
 		l.Bool(true).Nat(*st)
@@ -660,15 +735,22 @@ func node(l *hx.Line, st *int, code *string, det any, hasDet bool, msg func(), k
 	} else {
 		l.Bool(false)
 	}
-	if hasDet {
-		l.Bool(true)
+	switch detMode {
+	case 1:
+		l.Nat(1)
 		encJSON(l, det)
-	} else {
-		l.Bool(false)
+	case 2:
+		l.Nat(2)
+	default:
+		l.Nat(0)
 	}
 	msg()
 	kids()
 }
+
+// set by encErr when the tree has a details layer that cannot be encoded (counter only)
+var badSeen bool
+var bad = &badSeen
 
 var errValidationText = func() string {
 	var v any = errT{Kind: "fielderr", Fields: []fldT{{}}}.build()
@@ -688,11 +770,11 @@ func encErr(l *hx.Line, e errT, depth *int, caps *int, statuses map[int]bool) {
 	}
 	switch e.Kind {
 	case "new":
-		node(l, nil, nil, nil, false, func() { l.Tok("O").Str(jt(string(e.Msg))) }, leaf)
+		node(l, nil, nil, nil, 0, func() { l.Tok("O").Str(jt(string(e.Msg))) }, leaf)
 	case "wrap":
-		node(l, nil, nil, nil, false, func() { l.Tok("P").Str(jt(string(e.Msg))) }, one(*e.Inner))
+		node(l, nil, nil, nil, 0, func() { l.Tok("P").Str(jt(string(e.Msg))) }, one(*e.Inner))
 	case "join":
-		node(l, nil, nil, nil, false, func() { l.Tok("J") }, func() int {
+		node(l, nil, nil, nil, 0, func() { l.Tok("J") }, func() int {
 			l.Nat(len(e.Kids))
 			for _, k := range e.Kids {
 				encErr(l, k, depth, caps, statuses)
@@ -703,9 +785,9 @@ func encErr(l *hx.Line, e errT, depth *int, caps *int, statuses map[int]bool) {
 		st := e.Status
 		statuses[st] = true
 		if e.Inner == nil {
-			node(l, &st, nil, nil, false, func() { l.Tok("T").Nat(st) }, leaf)
+			node(l, &st, nil, nil, 0, func() { l.Tok("T").Nat(st) }, leaf)
 		} else {
-			node(l, &st, nil, nil, false, func() { l.Tok("I") }, one(*e.Inner))
+			node(l, &st, nil, nil, 0, func() { l.Tok("I") }, one(*e.Inner))
 		}
 	case "typed":
 		var st *int
@@ -722,8 +804,14 @@ func encErr(l *hx.Line, e errT, depth *int, caps *int, statuses map[int]bool) {
 			n++
 		}
 		var det any
+		detMode := 0
 		if e.HasDe {
-			det = canonOf(decodeJSON(e.Det))
+			if e.BadDet > 0 {
+				detMode = 2
+				*bad = true
+			} else {
+				det, detMode = canonOf(decodeJSON(e.Det)), 1
+			}
 			n++
 		}
 		if n > *caps {
@@ -733,19 +821,19 @@ func encErr(l *hx.Line, e errT, depth *int, caps *int, statuses map[int]bool) {
 		if e.Inner != nil {
 			kids = one(*e.Inner)
 		}
-		node(l, st, code, det, e.HasDe, func() { l.Tok("O").Str(jt(string(e.Msg))) }, kids)
+		node(l, st, code, det, detMode, func() { l.Tok("O").Str(jt(string(e.Msg))) }, kids)
 	case "valerr", "valerrptr":
 		st := 422
 		statuses[st] = true
 		code := "validation_error"
 		v := e.valErr()
 		*caps = 3
-		node(l, &st, &code, canonOf(v.Details()), true, func() { l.Tok("O").Str(jt(v.Error())) },
+		node(l, &st, &code, canonOf(v.Details()), 1, func() { l.Tok("O").Str(jt(v.Error())) },
 			one(errT{Kind: "new", Msg: bstr(errValidationText)}))
 	case "fielderr":
 		st := 422
 		statuses[st] = true
-		node(l, &st, nil, nil, false, func() { l.Tok("O").Str(jt(e.build().Error())) },
+		node(l, &st, nil, nil, 0, func() { l.Tok("O").Str(jt(e.build().Error())) },
 			one(errT{Kind: "new", Msg: bstr(errValidationText)}))
 	default:
 		// any other real error value: read the tree off the value itself
@@ -761,7 +849,7 @@ func encReal(l *hx.Line, err error, depth *int, caps *int, statuses map[int]bool
 	var st *int
 	var code *string
 	var det any
-	hasDet := false
+	hasDet, badDet := false, false
 	n := 0
 	if t, ok := err.(riverrors.ErrorType); ok {
 		s := t.HTTPStatus()
@@ -775,7 +863,13 @@ func encReal(l *hx.Line, err error, depth *int, caps *int, statuses map[int]bool
 		n++
 	}
 	if d, ok := err.(riverrors.ErrorDetails); ok {
-		det, hasDet = canonOf(d.Details()), true
+		hasDet = true
+		if _, mErr := json.Marshal(d.Details()); mErr != nil {
+			badDet = true
+			*bad = true
+		} else {
+			det = canonOf(d.Details())
+		}
 		n++
 	}
 	if n > *caps {
@@ -790,7 +884,14 @@ func encReal(l *hx.Line, err error, depth *int, caps *int, statuses map[int]bool
 	case interface{ Unwrap() []error }:
 		kids = u.Unwrap()
 	}
-	node(l, st, code, det, hasDet, func() { l.Tok("O").Str(jt(err.Error())) }, func() int {
+	detMode := 0
+	if hasDet {
+		detMode = 1
+	}
+	if badDet {
+		detMode = 2
+	}
+	node(l, st, code, det, detMode, func() { l.Tok("O").Str(jt(err.Error())) }, func() int {
 		l.Nat(len(kids))
 		for _, k := range kids {
 			encReal(l, k, depth, caps, statuses)
@@ -825,11 +926,47 @@ func emitO(id string, k ocaseT, only int, st *hx.Stats) []string {
 	return out
 }
 
+// lineB: the configured formatter's body never encodes; the model needs the failing position only
+func lineB(id string, k acaseT, o obsT, st *hx.Stats) string {
+	l := hx.NewLine(id).Tok("B").Nat(k.Pos)
+	in := l.String()
+	l.Sep()
+	encObs(l, o)
+	if st != nil {
+		st.Case(in[len(id):]+fmt.Sprint(k.Len, k.Mask, k.NextAfterFail, k.AbortFirst), k.Len-k.Pos >= 2)
+		st.Count("fail_formatter_body_never_encodes")
+	}
+	return l.String()
+}
+
+func encObs(l *hx.Line, o obsT) {
+	if o.panic {
+		l.Tok("P")
+		return
+	}
+	l.Tok("R").Nat(o.status).Str(o.ctype).Nat(len(o.bodies))
+	for _, b := range o.bodies {
+		encJSON(l, b)
+	}
+	l.Bool(o.aborted).Nat(len(o.entered))
+	for _, e := range o.entered {
+		l.Nat(e)
+	}
+	l.Nat(len(o.logs))
+	for _, r := range o.logs {
+		l.Str(jt(r.err)).Nat(max(r.status, 0))
+	}
+}
+
 func lineA(id string, k acaseT, o obsT, answers []string, st *hx.Stats) string {
+	if isBroken(k.Opts) {
+		return lineB(id, k, o, st)
+	}
 	l := hx.NewLine(id).Tok("A").Tok(k.Wire).Str(jt(k.path()))
 	// the error tree goes to a side line first so that the statuses it mentions are known
 	el := hx.NewLine("")
 	depth, caps := 0, 0
+	badSeen = false
 	statuses := map[int]bool{500: true}
 	switch k.Call.Kind {
 	case "fail":
@@ -910,18 +1047,7 @@ func lineA(id string, k acaseT, o obsT, answers []string, st *hx.Stats) string {
 	l.Tok(strings.TrimSpace(el.String()))
 	in := l.String()
 	l.Sep()
-	if o.panic {
-		l.Tok("P")
-	} else {
-		l.Tok("R").Nat(o.status).Str(o.ctype).Nat(len(o.bodies))
-		for _, b := range o.bodies {
-			encJSON(l, b)
-		}
-		l.Bool(o.aborted).Nat(len(o.entered))
-		for _, e := range o.entered {
-			l.Nat(e)
-		}
-	}
+	encObs(l, o)
 	if st != nil {
 		st.Case(in[len(id):], depth >= 3 || caps >= 2)
 		st.Count("fail_wire_" + k.Wire)
@@ -960,6 +1086,9 @@ func lineA(id string, k acaseT, o obsT, answers []string, st *hx.Stats) string {
 		}
 		if k.Prod {
 			st.Count("fail_production_environment")
+		}
+		if badSeen {
+			st.Count("fail_details_unencodable")
 		}
 	}
 	return l.String()
@@ -1062,7 +1191,7 @@ func emitF(id string, k fcaseT, st *hx.Stats) string {
 }
 
 func main() {
-	slog.SetDefault(slog.New(slog.NewTextHandler(io.Discard, nil)))
+	slog.SetDefault(slog.New(capHandler{}))
 	a := hx.ParseArgs()
 	w := hx.Out()
 	defer w.Flush()
@@ -1097,7 +1226,10 @@ func main() {
 					fmt.Fprintln(w, line)
 				}
 			} else if r.Chance(1, 8) {
-				fmt.Fprintln(w, emitF(fmt.Sprintf("c06-f-%d-%d", a.Seed, i), fcaseT{F: g.fmt(), Err: g.err(0)}, st))
+				g.noBad = true
+				fk := fcaseT{F: g.fmt(), Err: g.err(0)}
+				g.noBad = false
+				fmt.Fprintln(w, emitF(fmt.Sprintf("c06-f-%d-%d", a.Seed, i), fk, st))
 			} else {
 				fmt.Fprintln(w, emitA(fmt.Sprintf("c06-a-%d-%d", a.Seed, i), g.acase(), st))
 			}
